@@ -260,8 +260,8 @@ type verifC06Harness struct {
 	lastFence [2]uint64
 	lastHW    uint64
 
-	sawQuorumByAck, sawStale, sawRejectedMeta, sawLeaderSwitchRejected, sawOlderEpochRejected bool
-	sawCancelInflight, sawBatch, sawLocalMode, sawStoredErr, sawQuorumReceipt, sawBadReceipt   bool
+	sawQuorumByAck, sawStale, sawRejectedMeta, sawLeaderSwitchRejected, sawOlderEpochRejected   bool
+	sawCancelInflight, sawBatch, sawLocalMode, sawStoredErr, sawQuorumReceipt, sawBadReceipt    bool
 	sawAbort, sawFenceChangeDropsWaiters, sawAckNonMember, sawHWAdvanceByAck, sawAlreadyDurable bool
 	sawDupRejected                                                                              bool
 }
@@ -346,7 +346,7 @@ func (h *verifC06Harness) checkReplies(what string, d Decision, required []ch.Op
 			if it.MessageSeq != first+uint64(i) || it.MessageID != w.ids[i] || it.Message.MessageSeq != it.MessageSeq || it.Message.MessageID != it.MessageID {
 				h.fail("%s: reply for %d item %d = seq %d id %d, want seq %d id %d (contiguous, in record order)", what, r.OpID, i, it.MessageSeq, it.MessageID, first+uint64(i), w.ids[i])
 			}
-			if it.Message.ChannelID != verifC06ID.ID || it.Message.ChannelType != verifC06ID.Type {
+			if it.Message.ChannelID != h.m.id.ID || it.Message.ChannelType != h.m.id.Type {
 				h.fail("%s: reply for %d names channel %s/%d", what, r.OpID, it.Message.ChannelID, it.Message.ChannelType)
 			}
 		}
@@ -405,7 +405,7 @@ func (h *verifC06Harness) meta(t *rapid.T) ch.Meta {
 		meta.Leader = verifC06Local
 	}
 	pickLeader := func() ch.NodeID {
-		return ch.NodeID(rapid.SampledFrom([]int{1, 1, 1, 2, 3}).Draw(t, "leader"))
+		return ch.NodeID(rapid.SampledFrom([]int{1, 1, 1, 1, 1, 2, 3}).Draw(t, "leader"))
 	}
 	switch rapid.IntRange(0, 11).Draw(t, "metaKind") {
 	case 0, 1, 2: // same fence, same leader: refresh (ISR / MinISR / status may change)
@@ -441,30 +441,40 @@ func (h *verifC06Harness) meta(t *rapid.T) ch.Meta {
 	case 11:
 		meta.LeaderEpoch++
 	}
-	// replica sets
-	var replicas []ch.NodeID
-	for _, n := range []ch.NodeID{1, 2, 3, 4} {
-		if n == meta.Leader || rapid.IntRange(0, 3).Draw(t, "member") > 0 {
-			replicas = append(replicas, n)
+	// replica sets: mostly unchanged, sometimes a new membership / ISR / quorum size
+	reuse := len(m.isr) > 0 && rapid.IntRange(0, 2).Draw(t, "sameSets") > 0
+	if reuse {
+		meta.Replicas = append([]ch.NodeID(nil), m.replicas...)
+		meta.ISR = append([]ch.NodeID(nil), m.isr...)
+		meta.MinISR = m.minISR
+	} else {
+		var replicas []ch.NodeID
+		for _, n := range []ch.NodeID{1, 2, 3, 4} {
+			if n == meta.Leader || rapid.IntRange(0, 3).Draw(t, "member") > 0 {
+				replicas = append(replicas, n)
+			}
+		}
+		meta.Replicas = replicas
+		var isr []ch.NodeID
+		for _, n := range replicas {
+			if n == meta.Leader || rapid.IntRange(0, 2).Draw(t, "insync") > 0 {
+				isr = append(isr, n)
+			}
+		}
+		meta.ISR = isr
+		meta.MinISR = rapid.IntRange(1, len(isr)).Draw(t, "minISR")
+		if len(isr) >= 2 && rapid.Bool().Draw(t, "majority") {
+			meta.MinISR = len(isr)/2 + 1
 		}
 	}
-	meta.Replicas = replicas
-	var isr []ch.NodeID
-	for _, n := range replicas {
-		if n == meta.Leader || rapid.IntRange(0, 2).Draw(t, "insync") > 0 {
-			isr = append(isr, n)
-		}
-	}
-	meta.ISR = isr
-	switch rapid.IntRange(0, 9).Draw(t, "minISRKind") {
+	switch rapid.IntRange(0, 14).Draw(t, "minISRKind") {
 	case 0:
 		meta.MinISR = 0
 	case 1:
-		meta.MinISR = len(isr) + 1
-	default:
-		meta.MinISR = rapid.IntRange(1, len(isr)).Draw(t, "minISR")
+		meta.MinISR = len(meta.ISR) + 1
 	}
-	meta.Status = rapid.SampledFrom([]ch.Status{ch.StatusActive, ch.StatusActive, ch.StatusActive, ch.StatusActive, ch.StatusActive, ch.StatusCreating, ch.StatusDeleting, ch.StatusDeleted}).Draw(t, "status")
+	meta.Status = rapid.SampledFrom([]ch.Status{ch.StatusActive, ch.StatusActive, ch.StatusActive, ch.StatusActive, ch.StatusActive, ch.StatusActive, ch.StatusActive,
+		ch.StatusActive, ch.StatusActive, ch.StatusActive, ch.StatusActive, ch.StatusActive, ch.StatusCreating, ch.StatusCreating, ch.StatusDeleting, ch.StatusDeleted}).Draw(t, "status")
 	return meta
 }
 
@@ -833,6 +843,9 @@ func (h *verifC06Harness) actions() map[string]func(*rapid.T) {
 		},
 		"followerAck": func(t *rapid.T) {
 			follower := ch.NodeID(rapid.IntRange(1, 5).Draw(t, "follower"))
+			if len(h.m.isr) > 1 && rapid.IntRange(0, 2).Draw(t, "isrFollower") > 0 {
+				follower = h.m.isr[rapid.IntRange(1, len(h.m.isr)-1).Draw(t, "isrIdx")]
+			}
 			// the reactor refuses acknowledgements beyond the log end before the machine sees them
 			off := uint64(rapid.IntRange(0, int(h.m.leo)).Draw(t, "match"))
 			if h.m.leo > 0 && rapid.Bool().Draw(t, "caughtUp") {
@@ -889,6 +902,9 @@ func (h *verifC06Harness) actions() map[string]func(*rapid.T) {
 			h.cancelled[op] = true
 		},
 		"abort": func(t *rapid.T) {
+			if rapid.IntRange(0, 2).Draw(t, "really") != 0 {
+				t.Skip("abort kept rare")
+			}
 			var op ch.OpID
 			if h.m.inflight != nil && rapid.IntRange(0, 2).Draw(t, "current") > 0 {
 				op = h.m.inflight.batch
@@ -922,6 +938,8 @@ func (h *verifC06Harness) actions() map[string]func(*rapid.T) {
 	acts["stored2"] = acts["stored"]
 	acts["followerAck2"] = acts["followerAck"]
 	acts["followerAck3"] = acts["followerAck"]
+	acts["stored3"] = acts["stored"]
+	acts["propose3"] = acts["propose"]
 	return acts
 }
 
@@ -985,9 +1003,12 @@ func TestVerifC06Machine(t *testing.T) {
 			answered: map[ch.OpID]bool{}, cancelled: map[ch.OpID]bool{}, nextMsgID: 1000, lastHW: hw}
 		// most histories start as the leader of a healthy replica set
 		if rapid.IntRange(0, 5).Draw(rt, "bootstrap") > 0 {
-			isr := []ch.NodeID{1, 2, 3}[:rapid.IntRange(1, 3).Draw(rt, "isr0")]
+			isr := []ch.NodeID{1, 2, 3}[:rapid.SampledFrom([]int{1, 2, 2, 3, 3, 3}).Draw(rt, "isr0")]
 			meta := ch.Meta{Key: verifC06Key, ID: verifC06ID, Epoch: 1, LeaderEpoch: 1, Leader: verifC06Local, Replicas: []ch.NodeID{1, 2, 3}, ISR: isr,
 				MinISR: rapid.IntRange(1, len(isr)).Draw(rt, "minISR0"), Status: ch.StatusActive}
+			if len(isr) >= 2 && rapid.Bool().Draw(rt, "majority0") {
+				meta.MinISR = len(isr)/2 + 1
+			}
 			if d := s.ApplyMeta(meta); d.Err != nil {
 				rt.Fatalf("bootstrap ApplyMeta: %v", d.Err)
 			}
